@@ -85,6 +85,11 @@ CHECKS["C19"] = dict(level="model_checking", design="DESIGN.md §6 C18/C19, §3.
          "validating and pruning the pruned data again must change nothing.",
     note="Existential over the valid anyOf/oneOf alternatives. Trusted: harness facts, encoder.")
 
+CHECKS["C13"] = dict(level="model_checking", design="DESIGN.md §6 C13, §3.1 Numeric/BigDec, §7",
+    technique="TLA+ operators Numeric!Expected (exact decimal arithmetic on digit sequences) evaluated by TLC on numeric checks recorded through 5 entry points x 13 Go kinds (trace validation over a boundary table and seeded random decimals)",
+    text="Every recorded (entry point, kind, value, bound, exclusive) event is compared by TLC with exact arithmetic; the three known deviations are named operators honoured only while their witness still fails.",
+    note="Trusted: representability filter (big.Rat) and encoder. Bounded: |x| <= 2^53, <= 15 significant digits, <= 6 fractional digits for factors.")
+
 NOT_YET = {}
 
 
